@@ -3210,6 +3210,11 @@ def normalize_chunks(chunks, shape=None, limit=None, dtype=None, previous_chunks
                 "Empty tuples are not allowed in chunks. Express "
                 "zero length dimensions with 0(s) in chunks"
             )
+        if min(c) < 0:
+            raise ValueError(
+                "Chunk sizes must not be negative (use -1 or None for a "
+                f"full dimension). Got chunks={chunks}"
+            )
 
     if not allints and shape is not None:
         if not all(
